@@ -323,6 +323,14 @@ func runC10(r *Report) {
 		r.Fail("R-C10-1", rd.Pos(), fmt.Sprintf("expected 2 field reads (header, payload) in the decoder, found %d", nFull), "ReadFrameFromReader", "full-read-floor")
 	}
 
+	// a decoded payload never aliases a pooled buffer that is given back (also when no pool is in use today:
+	// the rule arms itself as soon as a sync.Pool appears in the codec)
+	nPool := 0
+	for _, f := range r.P.FuncsIn(cnPkg) {
+		nPool += checkSyncPoolOwnership(r, "R-C10-1", f)
+	}
+	r.Note("R-C10-1: %d sync.Pool Get site(s) in the cross-node codec examined for ownership", nPool)
+
 	// ---- R-C10-2 layout agreement ----------------------------------------------------
 	ref := frameLayout{headerSize: 21, idLo: 0, idHi: 16, typeIdx: 16, lenLo: 17, lenHi: 21, endian: "bigEndian"}
 	for _, f := range []*ssa.Function{wf, ww, rd} {
